@@ -46,3 +46,31 @@ Proof.
   apply sin_eq_0_1. exists (- k)%Z. rewrite opp_IZR. exact Ht.
 Qed.
 
+
+(** * the 5-DOF table (inverse_intern_5_dof): rows 4..7 are the wrist-flipped twins (J4 + PI, -J5) of rows 0..3 *)
+Definition twin5_row (r : list R) : list R :=
+  match r with [t1; t2; t3; t4; t5] => [t1; t2; t3; t4 + PI; - t5] | _ => r end.
+Definition twin5_row_def (r : list (R * bool)) : list (R * bool) :=
+  match r with [a; b; c; (t4, d4); (t5, d5)] => [a; b; c; (t4 + PI, d4); (- t5, d5)] | _ => r end.
+Theorem twin5_in_table p pose (i : nat) : (i < 4)%nat ->
+  nth (i + 4) (ik_theta5 p pose) [] = twin5_row (nth i (ik_theta5 p pose) []).
+Proof.
+  intros Hi. unfold ik_theta5. cbv zeta. destruct i as [|[|[|[|i]]]]; try lia; reflexivity.
+Qed.
+Theorem twin5_in_table_def p pose (i : nat) : (i < 4)%nat ->
+  nth (i + 4) (ik_theta5_def p pose) [] = twin5_row_def (nth i (ik_theta5_def p pose) []).
+Proof.
+  intros Hi. unfold ik_theta5_def. cbv zeta. destruct i as [|[|[|[|i]]]]; try lia; reflexivity.
+Qed.
+(** the 5-DOF twin keeps the tool point and the tool axis, whatever J6 is *)
+Definition jtwin5 (q : J6) : J6 := mkJ6 (j1 q) (j2 q) (j3 q) (j4 q + PI) (- j5 q) (j6 q).
+Theorem fk_twin5 p q :
+  tr (L6 p (jtwin5 q)) = tr (L6 p q) /\
+  m02 (rot (L6 p (jtwin5 q))) = m02 (rot (L6 p q)) /\ m12 (rot (L6 p (jtwin5 q))) = m12 (rot (L6 p q)) /\
+  m22 (rot (L6 p (jtwin5 q))) = m22 (rot (L6 p q)).
+Proof.
+  destruct q as [a1 a2 a3 a4 a5 a6].
+  cbv [L1 L2 L3 L4 L5 L6 E1 E2 E3 E4 E5 E6 jtwin5 j1 j2 j3 j4 j5 j6].
+  repeat split; [apply V3_eq|..]; lin_unfold;
+    rewrite ?sin_shift_PI, ?cos_shift_PI, ?sin_neg, ?cos_neg; ring.
+Qed.
